@@ -1,24 +1,75 @@
 """C07 - validation is an idempotent normalisation with an exact change set"""
-from props import oracles
+from props import comps_dflt, oracles
 
 PID = "C07"
-LEVEL = "exploration"
+LEVEL = "proof"
 
 
 def components():
-    return []
+    return [comps_dflt.DfltModel()]
 
 
 def oracles_():
     return [oracles.ValidateIdem()]
 
 
+TRUSTED = [
+    "ocaml/tree_io.ml + ocaml/run_dflt.ml (read / print lyx dumps incl. the new flag, render change lists and printed node "
+    "sets, evaluate the executable theorem hypotheses on every tree), tools/treeenc.py (yanggen module -> schema line with "
+    "sids in lys_getnext order and the choice / case chains), tools/yanggen.py + tools/props/comps_dflt.py (modules, "
+    "instances, edit histories; flattening of libyang's diff tree into per-node create / delete lines; reading the printed "
+    "XML with expat), impl/lyx.c (val, implicit, dump, print, newpath, chgpath, freepath, freen, rt commands)",
+]
+
+ASSUMPTIONS = [
+    "C07_validate_idempotent_partial assumes the validated tree is in the normal form (Implicit.normalb) and that the second "
+    "validation returns at all; C07_wd_modes_rfc6243_partial assumes consistent flags (WithDefaults.wd_wf_forest) and "
+    "LYD_PRINT_KEEPEMPTYCONT off; C07_dflt_flag_sound assumes sound flags on the input. The correspondence run evaluates these "
+    "executable hypotheses (Q / W fields of the model's answer) on EVERY tree libyang hands to or gets from a validation / "
+    "print of the generated histories and reports a tree that breaks one as a property failure (the four listed deviations "
+    "dflt-nested-case-leftover, dflt-leaflist-partial, vdiff-np-container, wd-leaflist-partial-default are such trees)",
+    "schemas: chc_okb / schema_okb (checked on every generated schema, field K); one module, no when / must / unique / "
+    "leafref, no opaque nodes; LYD_VALIDATE_PRESENT only (an empty tree is not validated)",
+]
+
 MANIFEST = {
-    "category": "exploration",
-    "text": "No Coq model of lyd_validate/lyd_new_implicit yet: the property is explored by an API oracle on generated schemas with "
-            "defaults/choices/presence and histories edit->validate->edit->validate: second validation changes nothing and reports "
-            "an empty change set, the change set applied to the pre-copy gives the tree after, default-flagged leaves hold the "
-            "schema default, the three with-defaults modes print the RFC 6243 node sets computed from the flags.",
-    "note": "Testing only (random generation from VERIF_SEED). when/must are not generated yet.",
-    "technique": "metamorphic API oracle on generated edit/validate histories (no proof yet)",
+    "category": "partial",
+    "text": "Coq (Properties_C07_dflt.v, closed under the global context) about Implicit.validate_all / implicit_all - a "
+            "branch-by-branch transcription of lyd_validate_all(LYD_VALIDATE_PRESENT) / lyd_new_implicit_all: per sibling list "
+            "lyd_validate_choice_r + lyd_validate_cases (old case deleted when a new one appears), the node loop of "
+            "lyd_validate_new (lyd_validate_autodel_leaflist_dflt / _cont_leaf_dflt, duplicate check, LYD_NEW cleared, "
+            "lyd_validate_autodel_case_dflt), then lyd_new_implicit (choices first: default case when no case has data, else the "
+            "defaults of the existing case incl. f4b2f68; NP containers, default leaves, default leaf-lists only when no "
+            "instance exists), then the same for the children of every inner node, finally lyd_validate_final_r (mandatory, "
+            "min / max-elements, lyd_np_cont_dflt_set) with the sequence of lyd_val_diff_add calls as change list - and about "
+            "WithDefaults.wd_print_forest (lyd_node_should_print, lyd_is_default, the default tag of xml_print_meta, the "
+            "printer's child loop) on the shared Tree.v model. Proved: a tree in the RFC 7950 normal form (an independent "
+            "executable spec: exactly the required default leaves / leaf-list values / NP containers per 7.6.1, 7.7.2, 7.5.1, "
+            "7.9.3, nested cases level by level) is a fixpoint of validation with an EMPTY change list "
+            "(C07_validate_idempotent_partial); validation and lyd_new_implicit_all keep the default flag sound - every "
+            "default-flagged term holds one of its schema defaults (C07_dflt_flag_sound, _implicit); for all five with-defaults "
+            "modes the printed node set and the default tags equal the RFC 6243 view defined independently over (default flag, "
+            "value = schema default, config) on trees with consistent flags (C07_wd_modes_rfc6243_partial). Refuted with "
+            "witnesses (all confirmed on libyang, listed findings): the normal form is not always reached "
+            "(C07_implicit_exact_refuted_nested_case, _leaflist), the change list of a second validation need not be empty "
+            "(C07_validate_idempotent_refuted), the change list is not exact (C07_change_set_exact_refuted), trim mode deviates "
+            "for leaf-lists (C07_wd_modes_rfc6243_refuted). Tie: component dfltmodel runs generated modules (defaults, default "
+            "leaf-lists, nested choices with default cases, NP / presence containers, lists) x trees from PARSE_ONLY parses and "
+            "edit histories (free / change / new path / tagged print parsed back) through lyd_validate_all / "
+            "lyd_new_implicit_all with diff and the five print modes, and the extracted model on the dumped tree before each "
+            "validation: the dump after (default and new flags), the net change list and the printed node sets + tags must be "
+            "identical; the model also evaluates the theorem hypotheses and conclusions (normal form reached, change list "
+            "replays to the tree after, flags consistent and sound, canonical input) on every one of these trees. The API oracle "
+            "validate-idem checks the same laws through lyd_diff_apply_all.",
+    "note": "PARTIAL. Not proved: that validation REACHES the normal form (only checked at run time on every generated case; "
+            "false for the two listed deviations), that the second validation does not fail, exactness of the change list "
+            "(checked at run time by replaying the model's change list; false for vdiff-np-container; libyang's own diff "
+            "additionally fails with LY_EINVAL in finding vdiff-np-recreate and is wrong for duplicate-instance lists, "
+            "vdiff-dupinst), preservation of the canonical order (checked at run time: libyang's invariant checker in the "
+            "oracle, canonb on every input tree). Not modelled: when / must / unique / leafref, several modules (with data of "
+            "another module in front libyang inserts a new top-level default node before older siblings of its own module - seen "
+            "once, outside Tree.v), LYD_VALIDATE_NO_STATE / NO_DEFAULTS / MULTI_ERROR, the state of the tree after a failed "
+            "validation, LYD_PRINT_KEEPEMPTYCONT in the theorem (tied by the correspondence run only), JSON / LYB printers.",
+    "technique": "Coq proof about a transcribed functional model and an independent executable RFC spec + differential "
+                 "correspondence on libyang dumps with run-time evaluation of the theorem hypotheses + metamorphic API oracle",
 }
